@@ -413,7 +413,10 @@ class PropertyAccessorOperation(Node):
         
     def generate_lingo(self, indentation: int) -> str:
         obj_str = self.obj.generate_lingo(indentation)
-        if obj_str == 'me':
+        if obj_str == 'me' and type(self.obj) is Node:
+            # Assignment to a declared property (the receiver is the plain
+            # node the opcode creates); 'the P of me' on a variable called
+            # 'me' keeps its object
             return vsprintf('%s', self.prop)
         elif obj_str.startswith('_') or obj_str == 'tell_obj':
             return vsprintf('the %s', self.prop)
